@@ -26,6 +26,14 @@ class Fp(object):
     def nat(self, n): return n % self.p
 
 
+class FpG(Fp):
+    """prime field handled by GFqDom<int64_t>(p, 1) in the harness (Residu_t = uint64_t); elements are residues"""
+
+    def __init__(self, p):
+        Fp.__init__(self, p)
+        self.name = "q:%d:1" % p
+
+
 class Fq(object):
     """GF(p^k) = F_p[t]/(m); an element is the integer whose base-p digits are its coefficients (what
     GFqDom::init(int64) / convert(int64) use); m is given the same way (GFqDom::irreducible())."""
@@ -172,7 +180,16 @@ def monics(F, d):
         yield list(t) + [1]
 
 
+_pf = {}
+
+
 def prime_factors(n):
+    if n not in _pf:
+        _pf[n] = _prime_factors(n)
+    return _pf[n]
+
+
+def _prime_factors(n):
     r, d = [], 2
     while d * d <= n:
         if n % d == 0:
@@ -403,7 +420,7 @@ def fac_class(F, P, facs):
     return "multiplicities<char"
 
 
-def gen_cases(rng, tier, fields, gfq):
+def gen_cases(rng, tier, fields, gfq, bigG=()):
     """returns the list of cases; `fields` = prime fields (model + oracle), `gfq` = extension fields (oracle only)"""
     C = []
     big = tier != "quick"
@@ -582,6 +599,28 @@ def gen_cases(rng, tier, fields, gfq):
                 add("isproot", F, [], [A, M], {}, "field of %d^%d elements" % (F.q, d))
             add("giveproot", F, stream(rng, 300), [M], {}, "degree %d" % d)
             add("giverandproot", F, stream(rng, 300), [M], {}, "degree %d" % d)
+
+    # ---- 4b. groups whose order q^n - 1 does not fit the residue word (2^32 for Modular<int32_t>, 2^64 for GFqDom<int64_t>):
+    #          the implementation must compute q^n - 1 in multiprecision; python decides from the factorisation of q^n - 1
+    for F, n in bigG:
+        for rep in range(1 if not big else 3):
+            M = IRR.get(rng, F, n)
+            N = F.q ** n - 1
+            X1 = [1, 1]
+            els = [("X+1", X1), ("X+2", [2, 1]), ("square", pmod(F, pmul(F, X1, X1), M)), ("constant", [3 % F.q or 1]),
+                   ("X", [0, 1]), ("zero", []), ("one", [1])]
+            for l in prime_factors(N)[:3]:
+                els.append(("l-th power, l=%d" % l, ppowmod(F, [rng.below(F.q) for _ in range(n)], l, M)))
+            if n % 2 == 0:     # an element of the proper subfield GF(q^(n/2))
+                els.append(("subfield element", ppowmod(F, [rng.below(F.q) for _ in range(n)], F.q ** (n // 2) + 1, M)))
+            for _ in range(3):
+                els.append(("random", rand_poly(rng, F, rng.range(1, n - 1))))
+            for kl, A in els:
+                for op in ("isproot", "order"):
+                    add(op, F, [], [A, M], {"nomodel": True}, "q^n >= 2^w, q=%d n=%d: %s" % (F.q, n, kl))
+            add("giveproot", F, stream(rng, 300), [M], {"nomodel": True}, "q^n >= 2^w, q=%d n=%d" % (F.q, n))
+            add("giverandproot", F, stream(rng, 300), [M], {"nomodel": True}, "q^n >= 2^w, q=%d n=%d" % (F.q, n))
+            add("randproot", F, stream(rng, 900), [str(n)], {"n": n, "nomodel": True}, "q^n >= 2^w, q=%d n=%d" % (F.q, n))
 
     # ---- 5. requests for irreducible polynomials / primitive roots
     for F in allF:
@@ -782,11 +821,12 @@ def main(tier, replay=None):
         # the modulus is chosen here (first monic irreducible of degree k in lexicographic order) and prescribed to GFqDom
         m = next(M for M in monics(Fp(p), k) if irreducible_brute(Fp(p), M))
         gfq.append(Fq(p, k, sum(c * p ** i for i, c in enumerate(m))))
-    cases = gen_cases(rng, tier, fields, gfq)
+    bigG = [(Fp(101), 5), (Fp(101), 10), (Fp(65521), 3), (FpG(65537), 4), (FpG(65537), 5)]
+    cases = gen_cases(rng, tier, fields, gfq, bigG)
     if replay:
         rp = json.load(open(replay))
         cases = []
-        byname = dict((F.name, F) for F in fields + gfq)
+        byname = dict((F.name, F) for F in fields + gfq + [F for F, n in bigG])
         for f in rp.get("failing_inputs", []):
             d = f["case"]
             if d["field"] in byname:
@@ -797,7 +837,7 @@ def main(tier, replay=None):
         chk.broke("implementation harness failed (rc=%s, %d/%d lines)" % (rc, len(iout), len(cases)), ierr)
         return chk.finish()
     # model: prime fields only
-    midx = [i for i, c in enumerate(cases) if isinstance(c.F, Fp) and c.op in MODEL_OP]
+    midx = [i for i, c in enumerate(cases) if isinstance(c.F, Fp) and c.op in MODEL_OP and not c.meta.get("nomodel")]
     big = [i for i in midx if cases[i].F.p > 1000]       # the extracted model runs on unary/binary inductives: sample the big field
     if len(big) > 400:
         drop = set(big[400:])
@@ -829,7 +869,7 @@ def main(tier, replay=None):
             continue
         if v is not None:
             d = c.describe()
-            d["meta"] = dict((k, x) for k, x in c.meta.items() if k in ("n", "d"))
+            d["meta"] = dict((k, x) for k, x in c.meta.items() if k in ("n", "d", "nomodel"))
             chk.fail_input(SITE.get(b, b), failing_class(c), d, v[0], iout[i], v[1])
             continue
         if i in mout:
